@@ -33,6 +33,7 @@ structure Obs15 where
   perValue : List (String × Res Json × Res PyVal)  -- serialize_value / deserialize_value
   subSer : Res (List (String × Json))              -- the same under subset=
   subDeser : Res (List (String × PyVal))
+  narrowDeser : Res (List (String × PyVal))        -- deserialize_parameters(full text, subset=…)
   -- the same text deserialized a second time, after the containers of the first result (and of
   -- the object rebuilt from it) were mutated in place
   againDeser : Res (List (String × PyVal))
@@ -86,6 +87,9 @@ def model15 (st : List (Param × PyVal)) (subset : Option (List String)) (classL
     subDeser := match subSer with
       | .ok f => liftE (deserializeFields ps subset f)
       | .error _ => .error "noser"
+    narrowDeser := match ser with
+      | .ok f => liftE (deserializeFields ps subset f)
+      | .error _ => .error "noser"
     -- deserialization is a function of the text: a second call gives fresh, equal values
     againDeser := deser
     againRebuilt := match deser with
@@ -127,6 +131,12 @@ def spec15 (subset : Option (List String)) (o : Obs15) : Option String :=
     | .ok l =>
       if !beqFields l (o.state.filter fun x => inSubset subset x.1) then
         some "subset: deserialized arguments are not the subset of the state" else
+      -- the full text read back with the narrower subset: exactly the selected names, deserialized
+      match o.narrowDeser with
+      | .error e => some s!"subset: deserialize_parameters(full text, subset) raised {e}"
+      | .ok ln =>
+      if !beqFields ln (o.state.filter fun x => inSubset subset x.1) then
+        some "subset: deserialize_parameters(full text, subset) is not the subset of the state" else
       -- a second deserialization of the same text, after the first result was mutated in place
       if o.againShared then some "repeat: the second deserialization shares list/dict objects with the first" else
       match o.againDeser with
